@@ -1,7 +1,11 @@
 import CGV.Props.C09
+import CGV.Props.C09Step
 #print axioms CGV.C09.C09_complete
 #print axioms CGV.C09.C09_smallest
 #print axioms CGV.C09.C09_hydrogen_untouched
 #print axioms CGV.C09.C09_over_valence
 #print axioms CGV.C09.C09_new_hydrogen_one_bond
 #print axioms CGV.C09.C09_inherit
+#print axioms CGV.C09.sortNodes_bonds2
+#print axioms CGV.C09.C09_phaseB_complete
+#print axioms CGV.C09.C09_step_complete
